@@ -196,6 +196,11 @@ def _save_file(
             f'The path to safetensors file must have a .safetensors extension, got: "{location}"'
         )
 
+    dtype_names = dict(_IR_DTYPE_TO_SAFETENSORS_DTYPE)
+    if packaging.version.parse(safetensors.__version__) >= packaging.version.parse("0.8.0"):
+        # safetensors 0.8 renamed the python-side dtype string (the header still says F8_E8M0)
+        dtype_names[ir.DataType.FLOAT8E8M0] = "float8_e8m0fnu"
+
     # First, collect metadata without loading tensor data
     tensors_to_save: list[ir.TensorProtocol] = []
     values_to_save: list[ir.Value] = []
@@ -249,7 +254,7 @@ def _save_file(
                 name = next(value_iter).name
                 assert name is not None
                 shard_dict[name] = {
-                    "dtype": _IR_DTYPE_TO_SAFETENSORS_DTYPE[tensor.dtype],
+                    "dtype": dtype_names[tensor.dtype],
                     "shape": _get_tensor_storage_shape(tensor),
                     "data": tensor.tobytes(),
                 }
